@@ -411,8 +411,15 @@ impl std::fmt::Display for Chatty {
 }
 
 fn recursion(fmt: Fmt, crlf: bool, mode: ModeK) -> Result<(u64, u64), Fail> {
+    recursion_with(fmt, crlf, mode, false)?;
+    // with a rotation due at every write: a record is one unit for the rotation, too - no file
+    // may end in the middle of a line
+    recursion_with(fmt, crlf, mode, true)
+}
+
+fn recursion_with(fmt: Fmt, crlf: bool, mode: ModeK, rotate: bool) -> Result<(u64, u64), Fail> {
     let env = Env::new("c20r");
-    let mut cfg = Cfg::norot();
+    let mut cfg = if rotate { Cfg::rot(crate::lg::CritK::Size(1), crate::lg::NamingK::Numbers, crate::lg::CleanK::Never) } else { Cfg::norot() };
     cfg.mode = mode;
     cfg.crlf = crlf;
     let ending = cfg.ending();
@@ -431,7 +438,19 @@ fn recursion(fmt: Fmt, crlf: bool, mode: ModeK) -> Result<(u64, u64), Fail> {
     handle.shutdown();
     drop(handle);
     env.leave();
-    let got = std::fs::read(env.dir.join("app.log")).unwrap_or_default();
+    let scan = crate::family::scan(&env.dir, &cfg.parts, None, cfg.naming(), &[]);
+    let mut got = Vec::new();
+    for m in &scan.members {
+        let content = std::fs::read(env.dir.join(&m.name)).unwrap_or_default();
+        if !content.is_empty() && (!content.ends_with(ending.as_bytes()) || content.starts_with(ending.as_bytes())) {
+            return Err(Fail {
+                clause: "line-split-across-files".into(),
+                cause: format!("{fmt:?}/{}/{}", if crlf { "crlf" } else { "lf" }, super::c08::mode_class(mode)),
+                detail: format!("format {fmt:?} ending {ending:?} mode {mode:?}, rotation at every write, recursive logging: the file {} holds {:?} - it does not consist of whole lines", m.name, String::from_utf8_lossy(&content)),
+            });
+        }
+        got.extend(content);
+    }
     let (lines, rest) = crate::family::split_lines(&got, ending);
     let texts = ["before", "inner one", "inner two", "outer says chatty", "after"];
     let ok = rest.is_empty()
